@@ -4,6 +4,7 @@ from pyvc.engine import Engine
 from pyvc.solve import discharge
 eng = Engine()
 mod=importlib.import_module(sys.argv[1]); c=getattr(mod, sys.argv[2])(*eval(sys.argv[3]))
+c.excluded_regions=set(filter(None,__import__('os').environ.get('VC_EXCL','D06,D09b,D10,D11,D12').split(',')))
 for dep in getattr(c,'uses',lambda e: [])(eng): eng.register(dep, modular=True)
 eng.register(c, modular=False); eng.cur_key=c.key
 for var in c.variants():
